@@ -231,8 +231,9 @@ type Gen struct {
 	timeoutS         int
 	dry              int
 	ws               *writeSet
-	assumingFresh    bool      // evaluating the ensures of an assumed contract: fresh(x) there introduces x as a new allocation
-	pendingCalleeWS  *writeSet // write set of the contracted callee being applied (dry run), havocked before its ensures are assumed
+	renames          map[string]map[string]string // function key -> local variable renames with respect to the committed HEAD (rename.go)
+	assumingFresh    bool                         // evaluating the ensures of an assumed contract: fresh(x) there introduces x as a new allocation
+	pendingCalleeWS  *writeSet                    // write set of the contracted callee being applied (dry run), havocked before its ensures are assumed
 	seenCall         map[*Clause]bool
 	siteOrds         map[*Clause]map[ssa.Instruction]int
 	inlineExt        map[string]bool
